@@ -1601,4 +1601,30 @@ def return_cases(ctx, func):
     return out
 
 
+def table_stores(ctx, func, table):
+    """Nodes of func that store one entry into the mapping `table` (`T[k] = v`, `T.setdefault(k, v)`, `T.update({k: v})`),
+    T resolved through aliases (`t = self.requests; t[k] = v`): [(node, key expr, value expr or None)]."""
+    cfg = ctx.cfg(func)
+    out = []
+    for n in cfg.nodes:
+        if n.kind == "stmt" and isinstance(n.stmt, ast.Assign):
+            for t in n.stmt.targets:
+                if isinstance(t, ast.Subscript) and unparse(at(ctx, func, n.id, t.value)) == table:
+                    out.append((n, t.slice, n.stmt.value))
+        for c in n.calls():
+            if isinstance(c.func, ast.Attribute) and c.func.attr in ("setdefault", "__setitem__") and c.args and unparse(
+                    at(ctx, func, n.id, c.func.value)) == table:
+                out.append((n, c.args[0], c.args[1] if len(c.args) > 1 else None))
+    return out
+
+
+def table_writers(ctx, cls_info, table):
+    """[(func, node, key, value)] over every function of the class (nested ones included)."""
+    out = []
+    for f in sorted([x for x in ctx.prog.funcs.values() if x.cls is cls_info], key=lambda x: x.qname):
+        for n, k, v in table_stores(ctx, f, table):
+            out.append((f, n, k, v))
+    return out
+
+
 __all__ = [n for n in dir() if not n.startswith("_")]
